@@ -157,6 +157,74 @@ def gc_dependent(out, tier):
     return n, bad
 
 
+def parse_table(lines):
+    """(variable, outcome) -> count from the CLI's aggregate table"""
+    got = collections.Counter()
+    cur = None
+    for l in lines:
+        m = re.match(r"^(\S.*?)\s*\|\s*(\d+)\s*\|\s*([\d.]+)\s*$", l)
+        if m and cur and m.group(1).strip() != "outcome":
+            got[(cur, m.group(1).strip())] += int(m.group(2))
+        elif l.startswith("qubit") or (l and "|" not in l and "-+-" not in l and not l.startswith(("Shots", "Backend", "Elapsed", "OPENQASM", "No tracked"))):
+            cur = l.strip()
+    return got
+
+
+COND_TEMPLATES = {
+    # name -> (source, draws consumed inside the branch when it is taken)
+    "tracked local in a branch": ("function main() -> void {\n  qubit c; h(c); bit b = measure c;\n  if (b == 1b) { @tracked qubit r; x(r); measure r; }\n  echo(b);\n}\n", 1),
+    "tracked local in a function reached conditionally": ("function probe() -> void { @tracked qubit r; x(r); measure r; }\n"
+        "function main() -> void {\n  qubit c; h(c); bit b = measure c;\n  if (b == 1b) { probe(); }\n  echo(b);\n}\n", 1),
+    "tracked field of an object created conditionally": ("class Q { @tracked public qubit q; public constructor() -> Q = default; }\n"
+        "function main() -> void {\n  qubit c; h(c); bit b = measure c;\n  if (b == 1b) { Q o = new Q(); x(o.q); measure o.q; }\n  echo(b);\n}\n", 2),
+    "tracked local in a loop body entered conditionally": ("function main() -> void {\n  qubit c; h(c); bit b = measure c;\n  int n = 0; if (b == 1b) { n = 2; }\n"
+        "  for (int i = 0; i < n; i = i + 1) { @tracked qubit r; x(r); measure r; }\n  echo(b);\n}\n", 2),
+}
+
+
+def cli_conditional(out, tier):
+    """the aggregate of a multi-shot CLI run is the sum of the per-shot tables also when only SOME shots produce tracked records
+    (declarations inside branches taken depending on a measurement), in every echo mode and whichever shot comes first"""
+    pats = [[0, 1, 1, 1], [1, 0, 0, 1], [0, 0, 1, 0], [0, 0, 0, 0]] if tier == "quick" else [[(m >> k) & 1 for k in range(5)] for m in range(32)]
+    n = bad = 0
+    for name, (src, extra) in COND_TEMPLATES.items():
+        for pat in pats:
+            per_shot = [[0.25 if c else 0.75] + [0.5] * (extra if c else 0) for c in pat]
+            ref = runner.run_jobs([{"id": 0, "src": src, "draws_by_shot": [d + [0.5] * 4 for d in per_shot], "shots": len(pat), "gc": "none"}])[0]
+            if ref["status"] != "ok" or len(ref["shots"]) != len(pat):
+                raise vlib.Infra("conditional-tracking template '%s' failed in process: %s" % (name, str(ref)[:300]))
+            exp = collections.Counter()
+            for c, sh in zip(pat, ref["shots"]):
+                if sh["echo"] != [str(c)]:
+                    raise vlib.Infra("conditional-tracking template '%s': coin %d echoed %s" % (name, c, sh["echo"]))
+                for key, outs in (sh.get("tracked") or {}).items():
+                    for o, k in outs.items():
+                        exp[(key, o)] += k
+            if any(pat) and not exp:
+                raise vlib.Infra("conditional-tracking template '%s' records nothing in process" % name)
+            for mode in ([], ["--echo=none"], ["--echo=all"]):
+                n += 1
+                r = runner.run_cli(["--shots=%d" % len(pat)] + mode + ["main.bloch"],
+                                   {"main.bloch": src, "draws.txt": " ".join(repr(d) for sh in per_shot for d in sh)},
+                                   env={"BLOCH_VERIF_DRAWS": "draws.txt", "BLOCH_VERIF_GC": "none"})
+                lines = r["stdout"].split("\n")
+                k0 = next((j for j, l in enumerate(lines) if l.startswith("Shots:")), None)
+                got = parse_table(lines[k0:]) if k0 is not None else None
+                why = None
+                if r["rc"] != 0 or got is None:
+                    why = "CLI ended with status %s: %s" % (r["rc"], r["stderr"][-200:])
+                elif mode == ["--echo=all"] and [l for l in lines[:k0] if l.strip() in ("0", "1")] != [str(c) for c in pat]:
+                    why = "the shots echo %s, the injected coins are %s" % ([l for l in lines[:k0] if l.strip() in ("0", "1")], pat)
+                elif got != exp:
+                    why = "CLI aggregate table %s, the per-shot tables add up to %s" % (dict(got), dict(exp))
+                if why:
+                    bad += 1
+                    msg = "%s, shots taking the branch %s, %s: %s" % (name, pat, " ".join(mode) or "default echo", why)
+                    if bad <= 4:
+                        out.violation(msg, {"what": msg, "program": src, "branch_taken_per_shot": pat, "mode": mode, "stdout": r["stdout"][-1500:], "stderr": r["stderr"][-500:]}, "cond%d" % n)
+    return n, bad
+
+
 def run(tier, seed):
     t0 = time.time()
     out = vlib.Outcome(PID)
@@ -255,20 +323,16 @@ def run(tier, seed):
                 if key.startswith(spec_name + "."):
                     key = text + key[len(spec_name):]
             exp[(key, outcome)] += N
-        got = collections.Counter()
-        cur = None
-        for l in lines[k:]:
-            m = re.match(r"^(\S.*?)\s*\|\s*(\d+)\s*\|\s*([\d.]+)\s*$", l)
-            if m and cur and m.group(1).strip() != "outcome":
-                got[(cur, m.group(1).strip())] += int(m.group(2))
-            elif l.startswith("qubit") or (l and "|" not in l and "-+-" not in l and not l.startswith(("Shots", "Backend", "Elapsed", "OPENQASM"))):
-                cur = l.strip()
+        got = parse_table(lines[k:])
         if got != exp:
             bad.append(("q%d" % i, "CLI aggregate table %s, expected %s" % (dict(got), dict(exp)), jobs[i]["src"], r))
     nrd, badrd = run_dependent(out, tier)
     ngd, badgd = gc_dependent(out, tier)
     nrd += ngd
     badrd += badgd
+    ncc, badcc = cli_conditional(out, tier)
+    cli_checked += ncc
+    badrd += badcc
     for tag, msg, src, r in bad[:8]:
         out.violation(msg, {"what": msg, "program": src, "result": r}, "p%s" % tag)
     cov = {"evaluations": shots_checked + cli_checked + nrd, "run_dependent_shots_compared": nrd, "distinct_nontrivial": len({s for s in srcs.values()}) + len(behs),
@@ -284,7 +348,9 @@ def run(tier, seed):
                    "specialisation creation order, static counters with destructors, default-constructor binding, tracked fields) are run as one "
                    "multi-shot execution whose shots get DIFFERENT injected coins and shot by shot compared with fresh single runs given the same coin. "
                    "Collector-dependent programs (an unreachable cycle keeping alive an object with a destructor and a qubit, 5..70 further allocations, "
-                   "with and without an object held by a static) run under the allocation-driven collection rule: each of 4 executions must equal a fresh run."}
+                   "with and without an object held by a static) run under the allocation-driven collection rule: each of 4 executions must equal a fresh run. "
+                   "Programs whose tracked declarations sit in branches / functions / loops / objects reached depending on a measurement run through the real CLI "
+                   "(default echo, --echo=none, --echo=all) with coins that make some shots skip them: the aggregate table is the sum of the per-shot tables."}
     vlib.write_evidence(PID, tier, seed, "exploration", cov,
                         ["the abstract syntax tree is compared through behaviour (re-analysis + re-execution), not structurally"],
                         time.time() - t0, len(bad) + badrd)
